@@ -29,6 +29,12 @@ func ValidateLiteralValue(node schema.Node, jsonValue bytes.Bytes) {
 		isNullable = c.(constraint.BoolKeeper).Bool()
 	}
 
+	if isNullable && jsonValue.String() == "null" {
+		// A null admitted by `nullable: true` is accepted whatever other rules
+		// are present (not only `enum`).
+		return
+	}
+
 	for _, k := range keys {
 		t := constraint.Type(k)
 		c := m.GetValue(t)
